@@ -22,14 +22,15 @@ Record etag := { et_weak : bool; et_str : bytes }.   (* et_str = the quoted-stri
 (* len >= 2 && str[0] == '"' && str[len-1] == '"' *)
 Definition is_quoted (t : bytes) : bool :=
   match t with
-  | 34 :: r => match rev r with 34 :: _ => true | _ => false end
-  | _ => false
+  | c :: r => (c =? 34) && match rev r with d :: _ => d =? 34 | [] => false end
+  | [] => false
   end.
 
 (* etagParseInit on a C string: weak = !strncmp(str, "W/", 2); if weak, str += 2; quoted-string check *)
 Definition etag_parse (s0 : bytes) : option etag :=
   let s := c_str s0 in
-  let '(w, t) := match s with 87 :: 47 :: t => (true, t) | _ => (false, s) end in
+  let w := starts_with s [87; 47] in
+  let t := if w then dropN 2 s else s in
   if is_quoted t then Some {| et_weak := w; et_str := t |} else None.
 
 (* etagStringsMatch: !strcmp *)
